@@ -28,7 +28,7 @@ RULE = ("2 of 3 runs: 1-12 ACN-Data documents (instants incl. DST transitions, s
         "under a generated host TZ; 1 of 3: stochastic sample matrices through generate_events; non-trivial = a document "
         "whose stay crosses a DST change or a request below half of the deliverable energy; distinct = (path, options, TZ, "
         "period, #docs, capped?)")
-PROBES = ["acndata_path", "stochastic_path", "stay_crosses_dst", "max_len_capped", "force_feasible_capped", "fit_used",
+PROBES = ["via_generate_events", "acndata_path", "stochastic_path", "stay_crosses_dst", "max_len_capped", "force_feasible_capped", "fit_used",
           "fit_closed_form_branch", "fit_search_branch", "naive_start", "host_tz_non_utc", "fit_infeasible_inconclusive",
           "departure_eq_arrival", "request_below_half_deliverable", "lenient_server_out_of_window_docs", "arrival_before_start", "integer_typed_sample_matrix", "earlier_call_with_other_battery_params"]
 FAULT_DIMENSION = "host time zone changes (S6); server paging as in C20; lenient server returning documents outside the requested window"
@@ -226,9 +226,23 @@ def check(sc):
                             pass
                         dc_mod.requests = server
                     try:
-                        evs = acndata_events.get_evs("tok", "caltech", start, end, period, sc["voltage"], sc["max_power"],
-                                                     max_len=sc["max_len"], battery_params=battery_params(sc),
-                                                     force_feasible=sc["force_feasible"])
+                        if sc["seed"] % 5 == 0:
+                            # through the public wrapper that builds the event queue: same sessions, each under a plug-in event
+                            # stamped with its arrival period
+                            out.probe("via_generate_events")
+                            q_ = acndata_events.generate_events("tok", "caltech", start, end, period, sc["voltage"], sc["max_power"],
+                                                                max_len=sc["max_len"], battery_params=battery_params(sc),
+                                                                force_feasible=sc["force_feasible"])
+                            pairs_ = sorted(((ts_, e_.ev) for ts_, e_ in q_.queue), key=lambda z: z[0])
+                            for ts_, ev_ in pairs_:
+                                if ts_ != ev_.arrival:
+                                    out.add("C15/plugin_event_time", "session %s: plug-in event at period %r, arrival %r" % (ev_.session_id, ts_, ev_.arrival))
+                                    break
+                            evs = [ev_ for _, ev_ in pairs_]     # (stable sort: ties keep queue order; the oracle below matches by id)
+                        else:
+                            evs = acndata_events.get_evs("tok", "caltech", start, end, period, sc["voltage"], sc["max_power"],
+                                                         max_len=sc["max_len"], battery_params=battery_params(sc),
+                                                         force_feasible=sc["force_feasible"])
                     except ValueError as x:
                         if sc["battery"] == "fit" and "No feasible battery size" in str(x):
                             out.probe("fit_infeasible_inconclusive")
@@ -241,7 +255,10 @@ def check(sc):
                 if evs is not None:
                     sel = sorted([d for d in sc["docs"] if sc.get("lenient_server") or sc["start"] <= d["connectionTime"] <= sc["end"]],
                                  key=lambda d: d["connectionTime"])
-                    if [e.session_id for e in evs] != [d["sessionID"] for d in sel] and len({d["connectionTime"] for d in sel}) == len(sel):
+                    if sc["seed"] % 5 == 0:
+                        if sorted(e.session_id for e in evs) != sorted(d["sessionID"] for d in sel):
+                            out.add("C15/sessions_converted", "event queue holds %s expected %s" % (sorted(e.session_id for e in evs), sorted(d["sessionID"] for d in sel)))
+                    elif [e.session_id for e in evs] != [d["sessionID"] for d in sel] and len({d["connectionTime"] for d in sel}) == len(sel):
                         out.add("C15/sessions_converted", "got %s expected %s" % ([e.session_id for e in evs], [d["sessionID"] for d in sel]))
                     off = floor_idx(sc["start"], period)
                     by = {d["sessionID"]: d for d in sc["docs"]}
